@@ -22,7 +22,7 @@ import torch
 import torch.nn as nn
 import torch.nn.functional as F
 import torch.fx as fx
-from .utils import try_get_args, fx_to_nx_graph, NamedLeafModules
+from .utils import try_get_args, fx_to_nx_graph, NamedLeafModules, normalize_dim
 
 
 def all_output_nodes(n: fx.Node) -> List[fx.Node]:
@@ -414,8 +414,11 @@ def is_features_concatenate(n: fx.Node, parent: fx.GraphModule) -> bool:
     :rtype: bool
     """
     dim = try_get_args(n, parent, 1, 'dim', 0)
-    if n.op == 'call_function' and n.target == torch.cat and dim == 1:
-        return True
+    if n.op == 'call_function' and n.target == torch.cat:
+        # an axis counted from the end is the features axis only for a tensor of the matching rank
+        if 'tensor_meta' in n.meta:
+            dim = normalize_dim(dim, len(n.meta['tensor_meta'].shape))
+        return dim == 1
     return False
 
 
